@@ -96,9 +96,9 @@ Section TwoOnce.
   Definition two_once_push : push C :=
     mkpush (St := once_st (rec_push A) (rec_push B))
            (fun s => let (r, s') := both_ready (rec_push A) (rec_push B) (snd s) in (r, (fst s, s')))
-           (fun c s => match send (unzip_push (rec_push A) (rec_push B)) (h c) (snd s) with
+           (fun c s => match unzip_send (rec_push A) (rec_push B) (h c) (snd s) with
                        | Some s' => Some (fst s, s') | None => None end)
-           (@both_fin_once _ _ (rec_push A) (rec_push B)).
+           (@both_fin _ _ (rec_push A) (rec_push B)).
 
   Definition Inv2S (ph : phase C) (s : (bool * bool) * (ds A * ds B)) : Prop :=
     InvS (ref0 h) ph (fst (fst s)) (lg (fst (snd s))) /\
@@ -118,7 +118,7 @@ Section TwoOnce.
   Lemma twoo_send : send_ok two_once_push Inv2S.
   Proof.
     intros xs c [[d0 d1] [s0 s1]] [H0 H1]. unfold Inv2S in *.
-    cbn [send two_once_push unzip_push rec_push fst snd St rec_send] in *.
+    cbn [send two_once_push rec_push fst snd St] in *. unfold unzip_send. cbn [send rec_push fst snd rec_send] in *.
     eexists. split; [reflexivity|]. split; cbn [fst snd lg].
     - apply invs_send; auto. unfold ref0. rewrite map_app. reflexivity.
     - apply invs_send; auto. unfold ref1. rewrite map_app. reflexivity.
@@ -126,7 +126,7 @@ Section TwoOnce.
 
   Lemma twoo_fin : fin_ok two_once_push Inv2S.
   Proof.
-    intros xs [[d0 d1] [s0 s1]] H. unfold Inv2S in *. cbn [fin two_once_push]. unfold both_fin_once.
+    intros xs [[d0 d1] [s0 s1]] H. unfold Inv2S in *. cbn [fin two_once_push]. unfold both_fin.
     cbn [rec_push fin fst snd St] in *.
     assert (G0 : InvS (ref0 h) (Fing xs) d0 (lg s0) \/ exists b, InvS (ref0 h) (Run xs b) d0 (lg s0)).
     { destruct H as [[H _]|[b [H _]]]; [left|right; exists b]; exact H. }
@@ -178,9 +178,9 @@ Section TwoOnce.
       destruct (rec_ready s0) as [a s0']. destruct (rec_ready s1) as [b s1']. cbn [fst snd] in *.
       destruct a, b; cbn [andb]; lia.
     - intros c [[d0 d1] [s0 s1]] s'.
-      cbn [send two_once_push unzip_push rec_push fst snd St rec_send].
+      cbn [send two_once_push rec_push fst snd St]. unfold unzip_send. cbn [send rec_push fst snd rec_send].
       intro E. inversion E. subst s'. unfold mu2o, mu_ds. cbn [fst snd rs fs]. lia.
-    - intros [[d0 d1] [s0 s1]]. unfold mu2o. cbn [fin two_once_push]. unfold both_fin_once.
+    - intros [[d0 d1] [s0 s1]]. unfold mu2o. cbn [fin two_once_push]. unfold both_fin.
       cbn [rec_push fin fst snd St].
       pose proof (rec_fin_mu s0) as M0. pose proof (rec_fin_mu s1) as M1.
       destruct d0, d1; cbn [fst snd andb]; try destruct (rec_fin s0) as [a s0'];
@@ -192,7 +192,7 @@ Section TwoOnce.
 End TwoOnce.
 
 Theorem unzip_once_correct : forall A B fuel (items : list (A * B)) r0 f0 r1 f1,
-    match drive (unzip_once_push (rec_push A) (rec_push B)) fuel items
+    match drive (unzip_push (rec_push A) (rec_push B)) fuel items
                 ((false, false), (mkds r0 f0 [], mkds r1 f1 [])) [] with
     | (o, _, s') => o <> Panicked /\
                     down_spec (map fst) items o (lg (fst (snd s'))) /\
@@ -201,7 +201,7 @@ Theorem unzip_once_correct : forall A B fuel (items : list (A * B)) r0 f0 r1 f1,
 Proof. intros. exact (two_once_correct (fun c : A * B => c) fuel items r0 f0 r1 f1). Qed.
 
 Theorem fanout_once_correct : forall A fuel (items : list A) r0 f0 r1 f1,
-    match drive (fanout_once_push (rec_push A) (rec_push A)) fuel items
+    match drive (fanout_push (rec_push A) (rec_push A)) fuel items
                 ((false, false), (mkds r0 f0 [], mkds r1 f1 [])) [] with
     | (o, _, s') => o <> Panicked /\
                     down_spec (fun xs => xs) items o (lg (fst (snd s'))) /\
@@ -209,8 +209,8 @@ Theorem fanout_once_correct : forall A fuel (items : list A) r0 f0 r1 f1,
     end.
 Proof.
   intros. pose proof (two_once_correct (fun a : A => (a, a)) fuel items r0 f0 r1 f1) as H.
-  change (two_once_push (fun a : A => (a, a))) with (fanout_once_push (rec_push A) (rec_push A)) in H.
-  destruct (drive (fanout_once_push (rec_push A) (rec_push A)) fuel items
+  change (two_once_push (fun a : A => (a, a))) with (fanout_push (rec_push A) (rec_push A)) in H.
+  destruct (drive (fanout_push (rec_push A) (rec_push A)) fuel items
                   ((false, false), (mkds r0 f0 [], mkds r1 f1 [])) []) as [[o tr] s'].
   unfold ref0, ref1 in H. cbn [fst snd] in H.
   destruct H as [P [[W0 [[x0 [Q0 R0]] F0]] [W1 [[x1 [Q1 R1]] F1]]]].
@@ -219,12 +219,12 @@ Qed.
 
 Theorem fanout_once_terminates : forall A fuel (items : list A) r0 f0 r1 f1,
     npend r0 + npend f0 + npend r1 + npend f1 + length items < fuel ->
-    fst (fst (drive (fanout_once_push (rec_push A) (rec_push A)) fuel items
+    fst (fst (drive (fanout_push (rec_push A) (rec_push A)) fuel items
                     ((false, false), (mkds r0 f0 [], mkds r1 f1 [])) [])) = Finished.
 Proof. intros. exact (two_once_terminates (fun a : A => (a, a)) items r0 f0 r1 f1 H). Qed.
 
 Theorem unzip_once_terminates : forall A B fuel (items : list (A * B)) r0 f0 r1 f1,
     npend r0 + npend f0 + npend r1 + npend f1 + length items < fuel ->
-    fst (fst (drive (unzip_once_push (rec_push A) (rec_push B)) fuel items
+    fst (fst (drive (unzip_push (rec_push A) (rec_push B)) fuel items
                     ((false, false), (mkds r0 f0 [], mkds r1 f1 [])) [])) = Finished.
 Proof. intros. exact (two_once_terminates (fun c : A * B => c) items r0 f0 r1 f1 H). Qed.
